@@ -44,11 +44,21 @@ def make_case(rnd, dim):
                     mask[e, s] = True
         data = data.copy()
         data[mask] = float("nan")
+    # the constructors also accept the (stations x events) layout for the picks and for their uncertainties (unambiguous when ne != ns)
+    layout = "events x stations"
+    data_arg, sigma_arg = data, sigma
+    if ne != ns and rnd.random() < 0.4:
+        which = rnd.choice(["data", "sigma", "both"])
+        if which in ("data", "both"):
+            data_arg = np.ascontiguousarray(data.T)
+        if which in ("sigma", "both") and not sig_scalar:
+            sigma_arg = np.ascontiguousarray(sigma.T)
+        layout = f"stations x events ({which})"
     with quiet():
         if dim == 2:
-            obj = SourceLocation2D(rx, rz, data, sigma, infer_velocity=infer, medium_velocity=None if infer else v)
+            obj = SourceLocation2D(rx, rz, data_arg, sigma_arg, infer_velocity=infer, medium_velocity=None if infer else v)
         else:
-            obj = SourceLocation3D(rx, ry, rz, data, sigma, infer_velocity=infer, medium_velocity=None if infer else v)
+            obj = SourceLocation3D(rx, ry, rz, data_arg, sigma_arg, infer_velocity=infer, medium_velocity=None if infer else v)
     truth = []
     for e in range(ne):
         truth += [x[e, 0]] + ([y[e, 0]] if dim == 3 else []) + [z[e, 0], T[e, 0]]
@@ -56,9 +66,28 @@ def make_case(rnd, dim):
         truth.append(v)
     truth = np.array(truth).reshape(-1, 1)
     desc = {"dim": dim, "events": ne, "stations": ns, "infer_velocity": infer, "sigma": "scalar" if sig_scalar else "array", "missing": int(mask.sum()),
-            "noise_free": noise_free}
+            "noise_free": noise_free, "layout": layout}
     geo = {"rx": rx, "ry": ry, "rz": rz, "data": data, "sigma": sigma if not sig_scalar else np.ones((ne, ns)) * sigma, "v": v}
     return obj, truth, desc, geo
+
+
+def ref_misfit(dim, geo, infer, m):
+    """the property's formula, written out independently: 1/2 sum ((observed - (T + distance/v)) / sigma)^2 over the picks that are not missing"""
+    ne, ns = geo["data"].shape
+    v = float(m[-1, 0]) if infer else geo["v"]
+    tot = 0.0
+    for e in range(ne):
+        base = e * (dim + 1)
+        src = [m[base + c, 0] for c in range(dim)]
+        T = m[base + dim, 0]
+        for s_ in range(ns):
+            rcv = [geo["rx"][0, s_]] + ([geo["ry"][0, s_]] if dim == 3 else []) + [geo["rz"][0, s_]]
+            o = geo["data"][e, s_]
+            if o != o:
+                continue
+            dist = math.sqrt(sum((a - b) ** 2 for a, b in zip(src, rcv)))
+            tot += ((o - (T + dist / v)) / geo["sigma"][e, s_]) ** 2
+    return 0.5 * tot
 
 
 def proto(dim, geo, infer, m):
@@ -108,6 +137,7 @@ def run(tier, seed):
         st.count(f"dim={dim}")
         st.count(f"missing={'yes' if desc['missing'] else 'no'}")
         st.count(f"velocity={'inferred' if desc['infer_velocity'] else 'fixed'}")
+        st.count(f"layout={desc['layout']}")
         if on_station:
             st.count("an event exactly on a station")
         problems = []
@@ -115,6 +145,26 @@ def run(tier, seed):
             problems.append(f"gradient shape {g.shape}")
         if math.isfinite(mis) and not np.all(np.isfinite(g)):
             problems.append(f"misfit is finite ({mis!r}) but the gradient contains {g.ravel().tolist()!r}")
+        rm = ref_misfit(dim, geo, desc["infer_velocity"], m)
+        if not common.close(mis, rm, 1e-9, 1e-12):
+            problems.append(f"misfit is {mis!r}, 1/2 sum ((observed - predicted)/sigma)^2 over the picks present is {rm!r}")
+        elif math.isfinite(mis):
+            # the gradient is the derivative of the object's own misfit: central differences, coordinate by coordinate
+            # (with an event exactly on a station the misfit has a kink in that event's position, but it is smooth in the
+            # origin times and in the velocity: those entries are still checked)
+            h = 1e-6
+            ks = list(range(m.size))
+            if on_station:
+                ks = [e_ * (dim + 1) + dim for e_ in range(desc["events"])] + ([m.size - 1] if desc["infer_velocity"] else [])
+            for k in ks:
+                mp, mm_ = m.copy(), m.copy()
+                mp[k, 0] += h
+                mm_[k, 0] -= h
+                with np.errstate(all="ignore"), quiet():
+                    fd = (float(obj.misfit(mp)) - float(obj.misfit(mm_))) / (2 * h)
+                if abs(fd - g[k, 0]) > 1e-4 * (1.0 + abs(fd) + abs(g[k, 0])):
+                    problems.append(f"gradient entry {k} is {g[k, 0]!r}, the central difference of misfit() gives {fd!r}")
+                    break
         if at_truth and desc["noise_free"] and not (abs(mis) <= 1e-18 and np.all(np.abs(g) <= 1e-9)):
             problems.append(f"noise-free data at the true model: misfit {mis!r}, max |gradient| {float(np.max(np.abs(g)))!r}")
         if problems:
